@@ -115,6 +115,12 @@ func (r *runner) checkOne(f format, m wamp.Message, ps *[]pending) wamp.Message 
 		return nil
 	}
 	if err != nil {
+		if f.name == "json" && strings.Contains(err.Error(), "strconv.ParseInt") && hasBigNegFloat(m) {
+			// C14-F4: the codec prints a float in (-2^64, -2^63) as a 20-digit integer and then
+			// cannot read it back
+			r.sum.Count("roundtrip.known-F4")
+			return nil
+		}
 		r.disagree(in, "error "+err.Error(), "equal message", true, "roundtrip: Deserialize(Serialize(m)) is an error for "+strct)
 		return nil
 	}
@@ -225,6 +231,41 @@ func (r *runner) sectionRoundtrip(n int) {
 
 func wampSample(r *runner, code wamp.MessageType) wamp.Message {
 	return genMessage(r.rng.Split(), code, formats[0].opts, 2)
+}
+
+// hasBigNegFloat: some float in the message lies in (-2^64, -2^63).
+func hasBigNegFloat(m wamp.Message) bool {
+	var walk func(v any) bool
+	walk = func(v any) bool {
+		switch x := v.(type) {
+		case float64:
+			return x < -9223372036854775808.0 && x > -18446744073709551616.0
+		case []any:
+			for _, e := range x {
+				if walk(e) {
+					return true
+				}
+			}
+		case wamp.List:
+			return walk([]any(x))
+		case map[string]any:
+			for _, e := range x {
+				if walk(e) {
+					return true
+				}
+			}
+		case wamp.Dict:
+			return walk(map[string]any(x))
+		}
+		return false
+	}
+	rv := reflect.ValueOf(m).Elem()
+	for i := 0; i < rv.NumField(); i++ {
+		if walk(rv.Field(i).Interface()) {
+			return true
+		}
+	}
+	return false
 }
 
 // ---- hostile lists ----------------------------------------------------------
@@ -450,12 +491,13 @@ func (r *runner) sectionSynthetic() {
 func (r *runner) sectionWitness() {
 	type w struct {
 		id, fmtName, hexBytes, what string
-		wantOK                     bool
+		wantOK                      bool
 	}
 	ws := []w{
 		{"C14-F1", "json", hex.EncodeToString([]byte(`[32,1,{},65]`)), "C14_rejects_strict_fails: [32,1,{},65] is accepted as SUBSCRIBE with Topic \"A\"", true},
 		{"C14-F2", "msgpack", "8101a161", "C14_toplevel_map_accepted: the MessagePack MAP {1:\"a\"} (not a list) is accepted as HELLO realm \"a\"", true},
 		{"C14-F2", "cbor", "a1016161", "C14_toplevel_map_accepted: the CBOR MAP {1:\"a\"} (not a list) is accepted as HELLO realm \"a\"", true},
+		{"C14-F2", "json", hex.EncodeToString([]byte(`{1:"a"}`)), "the JSON text {1:\"a\"} (an object, and not even valid JSON) is accepted as HELLO realm \"a\"", true},
 	}
 	var ps []pending
 	for _, x := range ws {
@@ -483,7 +525,30 @@ func (r *runner) sectionWitness() {
 		if x.fmtName == "json" && !jsonModelled {
 			line = "l2m json [i32,i1,{},i65]" // list-level model of the same witness
 		}
+		if x.fmtName == "json" && x.id == "C14-F2" {
+			continue // top-level objects with non-string keys are outside the Lean JSON fragment
+		}
 		ps = append(ps, pending{line: line, expect: verdict, input: x.hexBytes, detail: "witness " + x.id + ": model and implementation differ"})
+	}
+	// C14-F4: a float payload in (-2^64, -2^63) does not survive JSON
+	{
+		js := formats[0]
+		m := &wamp.Hello{Realm: "a", Details: wamp.Dict{"x": -1e19}}
+		b, serr := js.s.Serialize(m)
+		m2, derr, p := deserialize(js.s, b)
+		r.sum.Evaluations++
+		r.sum.Count("witness.C14-F4")
+		switch {
+		case p != "":
+			r.disagree(string(b), "panic "+p, "no panic", true, "witness: Deserialize panics")
+		case serr == nil && derr != nil:
+			r.sum.KnownFindings = append(r.sum.KnownFindings, fmt.Sprintf(
+				"C14-F4: JSON round trip fails for a float payload in (-2^64, -2^63): Hello{Realm:\"a\", Details:{\"x\": -1e19}} serialises to %s and Deserialize answers: %v", b, derr))
+		case serr == nil && derr == nil && specEqual(m, m2, true):
+			r.disagree(string(b), renderMsg(m2), "error", false, "witness: the implementation no longer reproduces C14-F4 (defect fixed: remove the exemption in the roundtrip section)")
+		default:
+			r.disagree(string(b), fmt.Sprintf("%v %v", serr, derr), "error", true, "witness: C14-F4 behaves differently")
+		}
 	}
 	// BinaryData.UnmarshalJSON on the empty JSON string: s[0] without a length check
 	var bd serialize.BinaryData
